@@ -22,6 +22,10 @@
 -/
 import Shangrla.Props.C01Run
 import Shangrla.Lemmas.VilleIIDK
+import Mathlib.Data.Real.Basic
+import Mathlib.Analysis.Real.Sqrt
+import Mathlib.NumberTheory.Real.Irrational
+import Mathlib.Algebra.BigOperators.Group.Finset.Defs
 
 namespace Shangrla.C01
 open Shangrla Shangrla.NM XR Shangrla.C12 Shangrla.Ville Shangrla.C11 Shangrla.C05
@@ -48,6 +52,29 @@ theorem lawMeanK_rat (L : List (ℚ × ℚ)) : lawMeanK (K := ℚ) L = lawMean L
   unfold lawMeanK lawMean
   rw [expLK_rat]
   rfl
+
+/-- a rational-weight law read in `K` is a law in `K`, with the cast mean (and, `hitIIDK_cast`, the cast
+hitting probabilities) -/
+theorem isLawK_castLaw (u : ℚ) (L : List (ℚ × ℚ)) (hL : IsLaw u L) : IsLawK u (castLaw K L) := by
+  refine ⟨?_, ?_, ?_⟩
+  · intro q hq
+    obtain ⟨p, hp, rfl⟩ := List.mem_map.1 hq
+    show (0 : K) ≤ ((p.2 : ℚ) : K)
+    exact_mod_cast hL.w_nonneg p hp
+  · have h : ∀ L : List (ℚ × ℚ), ((castLaw K L).map Prod.snd).sum = (((L.map Prod.snd).sum : ℚ) : K) := by
+      intro L
+      induction L with
+      | nil => simp [castLaw]
+      | cons a L ih =>
+        simp only [castLaw, List.map_cons, List.sum_cons, List.map_map] at ih ⊢
+        rw [ih]; push_cast; rfl
+    rw [h, hL.w_sum, Rat.cast_one]
+  · intro q hq
+    obtain ⟨p, hp, rfl⟩ := List.mem_map.1 hq
+    exact hL.range p hp
+
+theorem lawMeanK_castLaw (L : List (ℚ × ℚ)) : lawMeanK (castLaw K L) = ((lawMean L : ℚ) : K) :=
+  expLK_cast L (fun v => v)
 
 omit [IsStrictOrderedRing K] in
 theorem range_step_K (u : ℚ) (L : List (ℚ × K)) (hL : IsLawK u L) (h : List ℚ)
@@ -454,5 +481,207 @@ theorem C01_iid_run_of_K (sqrtF : ℚ → ℚ) (cfg : Cfg) (hN : cfg.N = none) (
     (by rw [lawMeanK_rat]; simpa using hmean) k
   rw [hitIIDK_rat] at h
   simpa using h
+
+/-! ### real probabilities -/
+
+/-- **C01 for `NonnegMean.test`, independent draws (`N = np.inf`), REAL probabilities.**  For every test
+the dispatcher offers for sampling with replacement, used within its documented parameter ranges
+(exactly the cases and hypotheses of `C01_iid_run`), every law `L` on finitely many rational values in
+`[0,u]` whose probabilities are arbitrary non-negative REAL numbers summing to 1, with mean at most `t`,
+every `alpha` in `(0,1)` and every horizon `k`: the exact (real) probability that after some number `≤ k`
+of independent draws from `L` the overall p-value returned by `self.test(x)` or ANY entry of the history
+it returns is at most `alpha`, is at most `alpha`.
+
+The observations handed to the library are IEEE doubles; every finite double is a rational number and
+the doubles in `[0,u]` are finitely many: every probability law on the library's input space is such an
+`L`.  -/
+theorem C01_iid_run_real (sqrtF : ℚ → ℚ) (cfg : Cfg) (hN : cfg.N = none) (test : Test)
+    (hdoc : DocumentedIID sqrtF cfg test)
+    (alpha : ℚ) (ha0 : 0 < alpha) (ha1 : alpha < 1)
+    (L : List (ℚ × ℝ)) (hL : IsLawK cfg.u L) (hmean : lawMeanK L ≤ (cfg.t : ℝ)) (k : Nat) :
+    hitIIDK L (reportedAnyRun sqrtF cfg test alpha) k [] ≤ (alpha : ℝ) :=
+  C01_iid_run_K sqrtF cfg hN test hdoc alpha ha0 ha1 L hL hmean k
+
+section Pmf
+
+variable {K : Type} [Field K] [LinearOrder K] [IsStrictOrderedRing K]
+
+/-- the law that puts the mass `p v` on each entry `v` of `vals` (if `vals` has no duplicates, `p v` is
+the probability of `v`; with duplicates the masses add up) -/
+def pmfLaw (vals : List ℚ) (p : ℚ → K) : List (ℚ × K) := vals.map (fun v => (v, p v))
+
+omit [IsStrictOrderedRing K] in
+theorem pmfLaw_isLaw (u : ℚ) (vals : List ℚ) (p : ℚ → K) (hrange : ∀ v ∈ vals, 0 ≤ v ∧ v ≤ u)
+    (hp0 : ∀ v ∈ vals, 0 ≤ p v) (hp1 : (vals.map p).sum = 1) : IsLawK u (pmfLaw vals p) := by
+  refine ⟨?_, ?_, ?_⟩
+  · intro q hq
+    obtain ⟨v, hv, rfl⟩ := List.mem_map.1 hq
+    exact hp0 v hv
+  · unfold pmfLaw
+    rw [List.map_map]
+    exact hp1
+  · intro q hq
+    obtain ⟨v, hv, rfl⟩ := List.mem_map.1 hq
+    exact hrange v hv
+
+omit [LinearOrder K] [IsStrictOrderedRing K] in
+theorem pmfLaw_mean (vals : List ℚ) (p : ℚ → K) :
+    lawMeanK (pmfLaw vals p) = (vals.map (fun v => p v * (v : K))).sum := by
+  unfold lawMeanK expLK pmfLaw
+  rw [List.map_map]
+  rfl
+
+end Pmf
+
+/-- **C01, every real probability mass function on a finite list of rational values.**  `vals` lists
+finitely many rational values in `[0,u]` (for instance: all IEEE doubles in `[0,u]`), `p v ≥ 0` is the
+real probability of `v`, `Σ_v p v = 1`, and the mean `Σ_v p v · v` is at most `t`.  Then for every shipped
+test within its documented ranges, every `alpha` in `(0,1)` and every horizon `k`, the probability that
+the overall p-value or any history entry reported after some number `≤ k` of independent draws is at
+most `alpha`, is at most `alpha`. -/
+theorem C01_iid_run_real_pmf (sqrtF : ℚ → ℚ) (cfg : Cfg) (hN : cfg.N = none) (test : Test)
+    (hdoc : DocumentedIID sqrtF cfg test)
+    (alpha : ℚ) (ha0 : 0 < alpha) (ha1 : alpha < 1)
+    (vals : List ℚ) (p : ℚ → ℝ) (hrange : ∀ v ∈ vals, 0 ≤ v ∧ v ≤ cfg.u)
+    (hp0 : ∀ v ∈ vals, 0 ≤ p v) (hp1 : (vals.map p).sum = 1)
+    (hmean : (vals.map (fun v => p v * (v : ℝ))).sum ≤ (cfg.t : ℝ)) (k : Nat) :
+    hitIIDK (pmfLaw vals p) (reportedAnyRun sqrtF cfg test alpha) k [] ≤ (alpha : ℝ) :=
+  C01_iid_run_real sqrtF cfg hN test hdoc alpha ha0 ha1 (pmfLaw vals p)
+    (pmfLaw_isLaw cfg.u vals p hrange hp0 hp1) (by rw [pmfLaw_mean]; exact hmean) k
+
+/-- **the same for a `Finset` of values**, in the usual notation: `S` a finite set of rationals in `[0,u]`
+(for instance the set of IEEE doubles in `[0,u]`), `p : ℚ → ℝ` with `p ≥ 0` on `S`, `∑ v ∈ S, p v = 1` and
+`∑ v ∈ S, p v * v ≤ t` -/
+theorem C01_iid_run_real_finset (sqrtF : ℚ → ℚ) (cfg : Cfg) (hN : cfg.N = none) (test : Test)
+    (hdoc : DocumentedIID sqrtF cfg test)
+    (alpha : ℚ) (ha0 : 0 < alpha) (ha1 : alpha < 1)
+    (S : Finset ℚ) (p : ℚ → ℝ) (hrange : ∀ v ∈ S, 0 ≤ v ∧ v ≤ cfg.u)
+    (hp0 : ∀ v ∈ S, 0 ≤ p v) (hp1 : ∑ v ∈ S, p v = 1)
+    (hmean : ∑ v ∈ S, p v * (v : ℝ) ≤ (cfg.t : ℝ)) (k : Nat) :
+    hitIIDK (pmfLaw S.toList p) (reportedAnyRun sqrtF cfg test alpha) k [] ≤ (alpha : ℝ) :=
+  C01_iid_run_real_pmf sqrtF cfg hN test hdoc alpha ha0 ha1 S.toList p
+    (fun v hv => hrange v (Finset.mem_toList.1 hv)) (fun v hv => hp0 v (Finset.mem_toList.1 hv))
+    (by rw [Finset.sum_map_toList]; exact hp1) (by rw [Finset.sum_map_toList]; exact hmean) k
+
+/-! ### non-vacuity: a law with irrational probabilities -/
+
+section NonVacuity
+
+/-- `P(0) = 2 - √2 ≈ 0.586`, `P(1) = √2 - 1 ≈ 0.414`: mean `√2 - 1 < 1/2` -/
+noncomputable def lawSqrt2 : List (ℚ × ℝ) := [(0, 2 - Real.sqrt 2), (1, Real.sqrt 2 - 1)]
+
+private theorem sqrt2_bounds : 1 ≤ Real.sqrt 2 ∧ Real.sqrt 2 ≤ 3 / 2 := by
+  have h0 := Real.sqrt_nonneg 2
+  have h2 : Real.sqrt 2 ^ 2 = 2 := Real.sq_sqrt (by norm_num)
+  constructor <;> nlinarith
+
+theorem lawSqrt2_isLaw : IsLawK 1 lawSqrt2 := by
+  obtain ⟨h1, h2⟩ := sqrt2_bounds
+  refine ⟨?_, ?_, ?_⟩
+  · intro p hp
+    simp only [lawSqrt2, List.mem_cons, List.not_mem_nil, or_false] at hp
+    rcases hp with rfl | rfl <;> simp only <;> linarith
+  · simp only [lawSqrt2, List.map_cons, List.map_nil, List.sum_cons, List.sum_nil]
+    ring
+  · intro p hp
+    simp only [lawSqrt2, List.mem_cons, List.not_mem_nil, or_false] at hp
+    rcases hp with rfl | rfl <;> norm_num
+
+theorem lawSqrt2_mean : lawMeanK lawSqrt2 ≤ ((1 / 2 : ℚ) : ℝ) := by
+  obtain ⟨_, h2⟩ := sqrt2_bounds
+  simp only [lawMeanK, expLK, lawSqrt2, List.map_cons, List.map_nil, List.sum_cons, List.sum_nil]
+  push_cast
+  linarith
+
+/-- the probability of the value `1` is irrational … -/
+theorem lawSqrt2_weight_irrational : Irrational (Real.sqrt 2 - 1) := by
+  have := irrational_sqrt_two.sub_ratCast (q := 1)
+  simpa using this
+
+/-- … hence `lawSqrt2` is not (the cast of) any law with rational weights: the rational-weight theorem
+`C01_iid_run` says nothing about it -/
+theorem lawSqrt2_not_rational : ¬ ∃ L : List (ℚ × ℚ), castLaw ℝ L = lawSqrt2 := by
+  rintro ⟨L, hL⟩
+  have hmem : ((1 : ℚ), Real.sqrt 2 - 1) ∈ castLaw ℝ L := by rw [hL]; simp [lawSqrt2]
+  obtain ⟨q, _, hq⟩ := List.mem_map.1 hmem
+  have h2 : ((q.2 : ℚ) : ℝ) = Real.sqrt 2 - 1 := congrArg Prod.snd hq
+  exact lawSqrt2_weight_irrational.ne_rat q.2 h2.symm
+
+private theorem tol_default' (N : Option Nat) (u t : ℚ) (ro : Bool) (kw : Kw) :
+    TolOK { N := N, u := u, t := t, randomOrder := ro, kw := kw } :=
+  ⟨by norm_num [eps], by norm_num [eps], by norm_num⟩
+
+/-- ALPHA + shrink-truncate (all defaults except `f = 1/10`), `u = 1`, `t = 1/2`, the driver's square root,
+independent draws from `lawSqrt2`, horizon 5 -/
+example : hitIIDK lawSqrt2
+    (reportedAnyRun sqrtRat { N := none, u := 1, t := 1/2, randomOrder := true, kw := { f := some (1/10) } }
+      (.alpha .shrinkTrunc) (1/20)) 5 [] ≤ ((1/20 : ℚ) : ℝ) :=
+  C01_iid_run_real sqrtRat _ rfl (.alpha .shrinkTrunc)
+    ⟨by norm_num, by norm_num, tol_default' _ _ _ _ _,
+      ⟨C13.sqrtRat_ok.pos, by norm_num [Cfg.dV], by norm_num [Cfg.fV], by norm_num [Cfg.minsdV]⟩⟩
+    (1/20) (by norm_num) (by norm_num) _ lawSqrt2_isLaw lawSqrt2_mean 5
+
+/-- betting + aGRAPA, all defaults -/
+example : hitIIDK lawSqrt2
+    (reportedAnyRun sqrtRat { N := none, u := 1, t := 1/2, randomOrder := true, kw := {} }
+      (.betting .agrapa) (1/20)) 5 [] ≤ ((1/20 : ℚ) : ℝ) :=
+  C01_iid_run_real sqrtRat _ rfl (.betting .agrapa)
+    ⟨by norm_num, by norm_num, tol_default' _ _ _ _ _,
+      ⟨C13.sqrtRat_ok, by norm_num [Cfg.c0V, eps], by norm_num [Cfg.c0V, Cfg.cmV], by norm_num [Cfg.cmV, eps],
+        by norm_num [Cfg.cgV]⟩⟩
+    (1/20) (by norm_num) (by norm_num) _ lawSqrt2_isLaw lawSqrt2_mean 5
+
+/-- the SPRT, default alternative `u (1 - eps)` -/
+example : hitIIDK lawSqrt2
+    (reportedAnyRun sqrtRat { N := none, u := 1, t := 1/2, randomOrder := false, kw := {} } .sprt (1/20)) 5 []
+      ≤ ((1/20 : ℚ) : ℝ) :=
+  C01_iid_run_real sqrtRat _ rfl .sprt
+    ⟨by norm_num, by norm_num, by simp [C11.sprtEta]; norm_num [eps], by simp [C11.sprtEta]; norm_num [eps]⟩
+    (1/20) (by norm_num) (by norm_num) _ lawSqrt2_isLaw lawSqrt2_mean 5
+
+/-- Kaplan-Markov, all defaults -/
+example : hitIIDK lawSqrt2
+    (reportedAnyRun sqrtRat { N := none, u := 1, t := 1/2, randomOrder := true, kw := {} } .km (1/20)) 5 []
+      ≤ ((1/20 : ℚ) : ℝ) :=
+  C01_iid_run_real sqrtRat _ rfl .km
+    ⟨by show (0 : ℚ) ≤ (none : Option ℚ).getD 0; norm_num,
+     by show (0 : ℚ) < 1/2 + (none : Option ℚ).getD 0; norm_num⟩
+    (1/20) (by norm_num) (by norm_num) _ lawSqrt2_isLaw lawSqrt2_mean 5
+
+/-- Kaplan-Wald with `g = 1/10` -/
+example : hitIIDK lawSqrt2
+    (reportedAnyRun sqrtRat { N := none, u := 1, t := 1/2, randomOrder := false, kw := { g := some (1/10) } }
+      .kw (1/20)) 5 [] ≤ ((1/20 : ℚ) : ℝ) :=
+  C01_iid_run_real sqrtRat _ rfl .kw
+    ⟨by norm_num, by show (0 : ℚ) ≤ (some (1/10 : ℚ)).getD 0; norm_num,
+     by show (some (1/10 : ℚ)).getD 0 ≤ (1 : ℚ); norm_num⟩
+    (1/20) (by norm_num) (by norm_num) _ lawSqrt2_isLaw lawSqrt2_mean 5
+
+/-- the same law as a probability mass function on the finite set `{0, 1}` -/
+example : hitIIDK (pmfLaw ({0, 1} : Finset ℚ).toList (fun v => if v = 0 then 2 - Real.sqrt 2 else Real.sqrt 2 - 1))
+    (reportedAnyRun sqrtRat { N := none, u := 1, t := 1/2, randomOrder := true, kw := {} } .km (1/20)) 5 []
+      ≤ ((1/20 : ℚ) : ℝ) := by
+  obtain ⟨h1, h2⟩ := sqrt2_bounds
+  refine C01_iid_run_real_finset sqrtRat _ rfl .km
+    ⟨by show (0 : ℚ) ≤ (none : Option ℚ).getD 0; norm_num,
+     by show (0 : ℚ) < 1/2 + (none : Option ℚ).getD 0; norm_num⟩
+    (1/20) (by norm_num) (by norm_num) _ _ ?_ ?_ ?_ ?_ 5
+  · intro v hv
+    simp only [Finset.mem_insert, Finset.mem_singleton] at hv
+    rcases hv with rfl | rfl <;> norm_num
+  · intro v hv
+    simp only [Finset.mem_insert, Finset.mem_singleton] at hv
+    rcases hv with rfl | rfl
+    · simp only [if_true]; linarith
+    · simp only [one_ne_zero, if_false]; linarith
+  · rw [Finset.sum_pair (by norm_num)]
+    simp only [if_true, one_ne_zero, if_false]
+    ring
+  · rw [Finset.sum_pair (by norm_num)]
+    simp only [if_true, one_ne_zero, if_false]
+    push_cast
+    linarith
+
+end NonVacuity
 
 end Shangrla.C01
